@@ -49,7 +49,8 @@ theorem pam_verdict_of_text (r : Response) (h : r.text.length ≤ maxLen) :
       if r.result then Pam.PAM_SUCCESS else Pam.PAM_AUTH_ERR := by
   have hlt : r.text.length < 65536 := by unfold maxLen at h; omega
   have h2 := text_len_ge r
-  simp only [Pam.verdictOfReply, Pam.recvVerdict_eq_spec, Pam.stream, List.append_nil, be16,
+  simp only [Pam.verdictOfReply, Pam.recvVerdict_eq_spec, Pam.zeroLenInterrupted_single, Bool.false_eq_true, if_false,
+    Pam.stream, List.append_nil, be16,
     List.cons_append, List.nil_append, Pam.verdictSpec, be16val_be16 hlt]
   have hmin : min r.text.length 256 = r.text.length := by unfold maxLen at h; omega
   have h0 : ¬ r.text.length = 0 := by omega
